@@ -243,6 +243,8 @@ def gen_case(rng, cls=None, force=None):
             xs, order = gen_ord(rng, n)
             f["order"] = encs(order)
             fl, dt = "ordinal", "object"
+        if dt == "int64" and all(isinstance(v, (int, float)) and 0 <= v <= 120 and float(v).is_integer() for v in xs):
+            dt = rng.choice(["int64", "int64", "int32", "int16", "int8", "uint8"])   # pd.Categorical.codes, counters
         f["flavour"], f["dtype"] = fl, dt
         f["values"] = encs(inject_nan(rng, xs, share))
         feats.append(f)
@@ -303,6 +305,9 @@ def hand_case(feats, valid=False, odt="str", dropna=True):
 # ------------------------------------------------------------------------------------------------
 # running the implementation
 # ------------------------------------------------------------------------------------------------
+INT_DTYPES = ("int64", "int32", "int16", "int8", "uint8")
+
+
 def build_frame(feats, columns=None, rows=None):
     """training frame (columns None), a subset of its rows (rows = indices, same dtypes) or a
     probe frame (columns = {name: encoded cells})"""
@@ -314,14 +319,14 @@ def build_frame(feats, columns=None, rows=None):
         if rows is not None:
             vals = [vals[i] for i in rows]
         if f["kind"] == "quant":
-            if f["dtype"] == "int64" and not any(C.is_nan(v) for v in vals) and columns is None:
-                cols[f["name"]] = pd.Series(np.array([int(v) for v in vals], dtype=np.int64))
+            if f["dtype"] in INT_DTYPES and not any(C.is_nan(v) for v in vals) and columns is None:
+                cols[f["name"]] = pd.Series(np.array([int(v) for v in vals], dtype=f["dtype"]))
             elif f["dtype"] == "float32":
                 cols[f["name"]] = pd.Series(np.array([float(v) for v in vals], dtype=np.float32))
             else:
                 cols[f["name"]] = pd.Series(np.array([float(v) for v in vals], dtype=float))
-        elif f["dtype"] == "int64" and columns is None:
-            cols[f["name"]] = pd.Series(np.array([int(v) for v in vals], dtype=np.int64))
+        elif f["dtype"] in INT_DTYPES and columns is None:
+            cols[f["name"]] = pd.Series(np.array([int(v) for v in vals], dtype=f["dtype"]))
         else:
             cols[f["name"]] = pd.Series(list(vals), dtype=object)
     return pd.DataFrame(cols)
